@@ -1581,6 +1581,20 @@ def state_fingerprint(prefix='a5'):
     return h.hexdigest()
 
 
+def _mark_edited(owned, caller_edited, obj):
+    """The caller edited one of its own argument objects.  A function may legitimately have *returned* that very
+    object (C17 does not forbid handing the argument back): such a result is then caller-edited too and is no
+    longer compared with what it was at return time."""
+    for rid, ent in owned.items():
+        rv = ent[1]
+        if rv is obj:
+            caller_edited.add(rid)
+        elif type(rv) in (list, tuple) and any(x is obj for x in rv):
+            caller_edited.add(rid)
+        elif type(rv) is dict and any(x is obj for x in rv.values()):
+            caller_edited.add(rid)
+
+
 def run_history_node(a5mod, seam, spec):
     """Body of a C17 node.  spec['ops'] is a list of ops; see c17.py.
     Returns one record per executed op: pre-call canonical args, outcome,
@@ -1645,11 +1659,13 @@ def run_history_node(a5mod, seam, spec):
                             o[:] = list(args[ai])
                             args[ai] = o
                             refilled = True
+                            _mark_edited(owned, caller_edited, o)
                         elif type(o) is dict and type(args[ai]) is dict:
                             o.clear()
                             o.update(args[ai])
                             args[ai] = o
                             refilled = True
+                            _mark_edited(owned, caller_edited, o)
             elif kind == 'recycle':
                 # the caller lets go of the objects of an earlier call and builds new argument
                 # containers, which CPython places at the same addresses (object lifetime fault)
@@ -1748,6 +1764,7 @@ def run_history_node(a5mod, seam, spec):
                 for a in owned[ref][0]:
                     applied = _mutate(a, op['how'], op.get('val', 7))
                     if applied:
+                        _mark_edited(owned, caller_edited, a)
                         break
             rec.update({'ref': ref, 'applied': applied})
         else:
